@@ -453,3 +453,22 @@ func VerifChooseErrCode(err error) int {
 	}
 	return -9
 }
+
+// VerifNewEngineWithDB is NewEngine with the engine's database seen through wrap (e.g. a recorder of
+// every table operation): Build and Run then work on the wrapped database.
+func VerifNewEngineWithDB(configFilePath string, wrap func(db.Database) db.Database) (*Engine, error) {
+	e, err := NewEngine(configFilePath)
+	if err != nil {
+		return e, err
+	}
+	e.db = wrap(e.db)
+	table, err := e.db.OpenTable(modelTableName)
+	if err == db.ETABLENOTFOUND {
+		table, err = e.db.CreateTable(modelTableName)
+	}
+	if err != nil {
+		return e, err
+	}
+	e.table = table
+	return e, nil
+}
